@@ -103,4 +103,44 @@ static inline void drv_ticks_end(const char *hist, size_t ncomp)
   vh_obs("hook_tick_events", (double)g_ticks_total);
   vh_max("max_iterations_per_component", (double)per);
 }
+
+/* NIPALS start diagnostics.  PCA() starts every component from the column of the current residual E with the largest variance and
+   stops when |t_new - t_old|^2 / (n |t_new|^2) < tol.  That rule is also met next to a NON-dominant singular vector: if the start
+   column has (almost) no component along the dominant axis, the iteration settles on another axis and stops there before the
+   dominant component has grown (it grows by 1/rho2 per pass, rho2 = eigenvalue ratio).  This helper measures that input class:
+   returns |cos| between the start column and the dominant left singular direction of E, and the ratio second/first eigenvalue. */
+static inline double nipals_start_cos(const ldm *E, double *rho2)
+{
+  size_t n = E->r, p = E->c, i, j; ld best = -1, cmin = 2;
+  ldm *A = ldm_ata(E), *V = ldm_new(p, p); ld *ev = calloc(p + 1, sizeof(ld)), *var = calloc(p + 1, sizeof(ld)), *u = calloc(n + 1, sizeof(ld)), nu = 0;
+  or_jacobi_eig(A, ev, V);
+  for (j = 0; j < p; j++) {
+    ld m = 0, v = 0;
+    for (i = 0; i < n; i++) m += LM(E, i, j);
+    m /= (ld)n;
+    for (i = 0; i < n; i++) v += (LM(E, i, j) - m) * (LM(E, i, j) - m);
+    var[j] = v; if (v > best) best = v;
+  }
+  for (i = 0; i < n; i++) { for (j = 0; j < p; j++) u[i] += LM(E, i, j) * LM(V, j, 0); nu += u[i] * u[i]; }
+  /* autoscaled columns have equal variances up to rounding, and which of them the library's double arithmetic ranks first is not
+     predictable: every column whose variance is maximal to 1e-10 relative is a possible start column */
+  for (j = 0; j < p; j++) if (var[j] >= best * (1 - 1e-10L) && var[j] > 0) {
+    ld dot = 0, nt = 0, cj;
+    for (i = 0; i < n; i++) { dot += u[i] * LM(E, i, j); nt += LM(E, i, j) * LM(E, i, j); }
+    cj = nt > 0 && nu > 0 ? fabsl(dot) / sqrtl(nt * nu) : 1;
+    if (cj < cmin) cmin = cj;
+  }
+  if (rho2) *rho2 = p > 1 && ev[0] > 0 ? (double)(ev[1] / ev[0]) : 0.0;
+  ldm_free(A); ldm_free(V); free(ev); free(var); free(u);
+  return cmin > 1 ? 1.0 : (double)cmin;
+}
+/* largest start cosine for which the documented stopping rule (tol, n rows) can fire on the wrong axis: the dominant component a
+   grows by 1/rho2 per pass, so the pass-to-pass change is a (1/rho2 - 1) and the rule is met while a <= sqrt(n tol) / (1/rho2 - 1);
+   safety factor 8, capped at 0.5 (nearly degenerate pairs, where NIPALS cannot tell the two axes apart) */
+static inline double nipals_wrong_axis_threshold(size_t n, double tol, double rho2)
+{
+  double g = rho2 > 0 && rho2 < 1 ? 1.0 / rho2 - 1.0 : 1e300, t = 8.0 * sqrt((double)n * tol) / g;
+  return t < 0.5 ? t : 0.5;
+}
+
 #endif
